@@ -373,6 +373,15 @@ impl ProjSet {
                 if t.mutation == SchemaMut::UnknownResourceKey {
                     input.push(json!({"paths": ["src"], "extension": ["rs"]}));
                 }
+                // schema-valid files resources of unusual but legal spelling (one target in two):
+                // paths ending in `..`, `.` and a missing directory, with an extension filter
+                let odd_paths = super::report::fnv(&t.name) % 2 == 0;
+                if odd_paths {
+                    input.push(json!({"paths": ["gen/..", ".", "missing/.."], "extensions": ["zvgen", ""]}));
+                    // ... and a command whose output never repeats, so that declaring inputs does
+                    // not make the target skippable (repeated invocations stay comparable)
+                    input.push(json!({"cmd_stdout": "echo $$; date +%s%N"}));
+                }
                 let mut doc = Map::new();
                 match t.mutation {
                     SchemaMut::DependenciesNotAList => {
@@ -397,6 +406,9 @@ impl ProjSet {
                     (PKind::Build, _) => {
                         doc.insert("build".into(), json!(scr));
                         doc.insert("input".into(), json!(input));
+                        if odd_paths {
+                            doc.insert("output".into(), json!([{"paths": ["gen/sub/.."], "extensions": [".zvout"]}]));
+                        }
                     }
                     (PKind::Service, m) => {
                         doc.insert("service".into(), json!(scr));
@@ -428,6 +440,7 @@ impl ProjSet {
                 doc.insert("version".into(), json!(2));
             }
             write_project(&sb.path(&p.dir), &Value::Object(doc));
+            sb.write(&format!("{}/gen/sub/keep.txt", p.dir), b"keeps gen/ and gen/sub/ in place\n");
         }
     }
 
